@@ -49,6 +49,7 @@ fn alphabet() -> Vec<Op> {
         Op::Describe(C, "m", None, "d1"),
         Op::Describe(C, "m", Some(Unit::Bytes), "d2"),
         Op::Describe(C, "m", None, "d3"),
+        Op::Describe(C, "m", Some(Unit::Seconds), "d4"), // a second, different unit for the same kind and name
         Op::Describe(H, "m", Some(Unit::Count), "d1"),
         Op::Describe(G, "m", None, "d1"),
         Op::Describe(C, "n", Some(Unit::Seconds), "d1"),
@@ -507,7 +508,7 @@ fn main() {
     driver::main(CheckDef {
         prop: "C19",
         level: "model_checking",
-        rule: "E3: every sequence of depth <= 4 (thorough 6) over {63, 64, 65, 130 records into one histogram, one record, 65 records into another, snapshot} (windows around the 64-slot block size of the bucket); every sequence of the stated depth over 18 operations (describe with/without unit and three texts, register of 4 keys incl. an equal key built differently and the same name under three kinds, counter/gauge/histogram updates, snapshot) on a fresh real DebuggingRecorder, plus a final snapshot; every snapshot compared with a reference (first-registration order, described-only metrics absent, latest description, unit kept, histogram values since the previous snapshot); all pairs of 3-step macro programs on two threads with local recorders; E1: all SC interleavings of a recording thread with a snapshotting thread; distinct = distinct snapshots",
+        rule: "E3: every sequence of depth <= 4 (thorough 6) over {63, 64, 65, 130 records into one histogram, one record, 65 records into another, snapshot} (windows around the 64-slot block size of the bucket); every sequence of the stated depth over 19 operations (describe with two different units / without unit and four texts, register of 4 keys incl. an equal key built differently and the same name under three kinds, counter/gauge/histogram updates, snapshot) on a fresh real DebuggingRecorder, plus a final snapshot; every snapshot compared with a reference (first-registration order, described-only metrics absent, latest description, unit kept, histogram values since the previous snapshot); all pairs of 3-step macro programs on two threads with local recorders; E1: all SC interleavings of a recording thread with a snapshotting thread; distinct = distinct snapshots",
         assumptions: &["E1: sequential consistency, one registry shard"],
         parts,
         run,
